@@ -1,0 +1,34 @@
+//go:build verif
+
+package authtoken
+
+// Contracts for the deductive verifier in /verif (govc). Comments only; build tag "verif".
+//
+// C19: a token grants permissions only if its signature verifies under the node's verifier, its
+// claims decode, and it has not expired; what is granted is exactly the Allow list of the claims.
+// (A-P2P/A-CODEC: jwt.Parse verifies the signature; JSON decoding is a function of the claim bytes.)
+
+//@ pure func tns(t time.Time) int
+//@ pure func timeIsZero(t time.Time) bool
+//@ extern (time.Time).IsZero
+//@   ensures result <==> timeIsZero(t)
+//@ extern (time.Time).UTC
+//@   ensures tns(result) == tns(t)
+//@ extern (time.Time).Before
+//@   ensures result <==> tns(t) < tns(u)
+//@ pure func nowNs() int
+//@ extern time.Now
+//@   ensures tns(result) >= nowNs()
+
+//@ pure func jwtVerified(verifier jwt.Verifier, raw []byte) bool
+//@ pure func tokenClaims(t *jwt.Token) []byte
+//@ extern github.com/cristalhq/jwt/v5.Parse
+//@   ensures err == nil ==> result0 != nil && jwtVerified(verifier, raw)
+//@ extern (*github.com/cristalhq/jwt/v5.Token).Claims
+//@   ensures result == tokenClaims(t)
+
+//@ func ExtractSignedPermissions
+//@   property C19
+//@   ensures err == nil ==> jwtVerified(verifier, bytesOf(token))
+//@   checks err == nil ==> p != nil && result0 == deref(p).Allow
+//@   checks err == nil ==> timeIsZero(deref(p).ExpiresAt) || tns(deref(p).ExpiresAt) >= nowNs()
